@@ -229,3 +229,93 @@ func VC07_Wiring() {
 	}
 	rt.Reach("end")
 }
+
+// VC07_Burst: K requests from different sources arrive back to back (all of them are on the
+// socket / their connections before the proxy gets to run), through the real startProxy wiring.
+// Every one of them must leave with received / rport of ITS OWN packet.
+func VC07_Burst() {
+	L, K := rt.Param("L"), rt.Param("K")
+	fakenet.Reset()
+	rt.RaceMonitor(true)
+	tcp := rt.Bool("tcp")
+	cfg := ProxyConfig{Name: wService}
+	cfg.Listens = append(cfg.Listens, struct {
+		Address            string
+		UDPPort            int      `yaml:"udp-port,omitempty"`
+		TCPPort            int      `yaml:"tcp-port,omitempty"`
+		BackendLocalAdress string   `yaml:"backend-local-address,omitempty"`
+		BackendLocalPort   int      `yaml:"backend-local-port,omitempty"`
+		Backends           []string `yaml:",omitempty"`
+		Dests              []string `yaml:",omitempty"`
+		NoReceived         bool     `yaml:"no-received,omitempty"`
+		defRoute           bool     `yaml:"def-route,omitempty"`
+		MustRecordRoute    bool     `yaml:"must-record-route,omitempty"`
+	}{Address: wListenAddr, UDPPort: 5060, TCPPort: 5060, BackendLocalAdress: wListenAddr, BackendLocalPort: 5080,
+		Backends: []string{"udp://10.0.1.1:5060"}})
+	err := startProxy(cfg, NewPreConfigRoute(), NewPreConfigHostResolver())
+	rt.Assert(err == nil, "proxy starts")
+	if err != nil {
+		return
+	}
+	rt.Quiesce()
+	var sock *fakenet.UDPConn
+	for _, u := range fakenet.UDPConns {
+		if u.LocalAddr().String() == wListenAddr+":5060" {
+			sock = u
+		}
+	}
+	rt.Assert(sock != nil && len(fakenet.Listeners) == 1, "listeners created")
+	if sock == nil || len(fakenet.Listeners) != 1 {
+		return
+	}
+	var srcIP, srcPort []string
+	var conns []*fakenet.TCPConn
+	var texts []string
+	for i := 0; i < K; i++ {
+		ip := "10." + itoa(2+i) + ".2." + rt.Dec("octet", 2)
+		port := genPort()
+		srcIP, srcPort = append(srcIP, ip), append(srcPort, port)
+		texts = append(texts, "INVITE sip:bob@"+wService+" SIP/2.0\r\nVia: SIP/2.0/UDP 192.0.2.1:7777;branch=z9hG4bK"+itoa(i)+rt.Str("br", "alnum", 1, L)+";rport"+
+			"\r\nFrom: <sip:alice@example.com>;tag=a\r\nTo: <sip:bob@"+wService+">\r\nCall-ID: call"+itoa(i)+"\r\nCSeq: 1 INVITE\r\nContent-Length: 0\r\n\r\n")
+		if tcp {
+			c := fakenet.NewTCPConn(wListenAddr+":5060", ip+":"+port)
+			fakenet.Listeners[0].Connect(c)
+			conns = append(conns, c)
+		}
+	}
+	if tcp {
+		rt.Quiesce()
+	}
+	for i := 0; i < K; i++ {
+		if tcp {
+			conns[i].Feed([]byte(texts[i]))
+		} else {
+			sock.Deliver(srcIP[i]+":"+srcPort[i], []byte(texts[i]))
+		}
+	}
+	rt.Quiesce()
+	seen := 0
+	for _, d := range fakenet.Sent {
+		if d.Remote != "10.0.1.1:5060" {
+			continue
+		}
+		m := refRead(string(d.Payload))
+		for i := 0; i < K; i++ {
+			if m.first("call-id") != "call"+itoa(i) {
+				continue
+			}
+			seen++
+			via := m.listOf("via")
+			rt.Assert(len(via) == 2, "own Via plus the sender's")
+			if len(via) != 2 {
+				return
+			}
+			r, has := paramOf(via[1], "received")
+			rp, hasRp := paramOf(via[1], "rport")
+			rt.Assert(has && r == srcIP[i], "burst: received is the source address of this very packet")
+			rt.Assert(hasRp && rp == srcPort[i], "burst: rport is the source port of this very packet")
+		}
+	}
+	rt.Assert(seen == K && len(fakenet.Sent) == K, "every request of the burst reaches the backend once")
+	rt.Reach("end")
+}
